@@ -140,6 +140,54 @@ func genC20(c *Ctx) {
 		close(start)
 		wg2.Wait()
 	}
+	// ---- the same program evaluated by all evaluations at the same moment, each in its own scope: the programs obtain
+	// the table's own entry for a never-seen name (keys of evalEnv / object results) and use it as a value (compare,
+	// hash as a map key, index), or import the bundled modules (whatever the interpreter keeps per module is shared)
+	rounds3 := 120
+	if c.Thorough() {
+		rounds3 = 1200
+	}
+	shapes := []string{
+		"\"%s := 1\".evalEnv.keys[0] == \"%s\"",
+		"k := \"%s := 1\".evalEnv.keys[0]; %%{k: 1}[k]",
+		"{%s: 1}.keys@{|s| [s == \"%s\", %%{s: 2}[s], {a: 1}[s]]}",
+		"o := \"%s := 1; other%s := 2\".evalEnv; o.keys@{|s| o[s]}",
+		"import(\"dummy_native\").keys.len # %s",
+		"import(\"http\").keys.len # %s",
+		"import(\"dummy\").keys.len # %s",
+		"{|| invite!(\"dummy_native\"); 1}() # %s",
+		"`{\"%s\": {\"%s\": 1}}`.decJSON.keys@{|s| s == 'a}",
+	}
+	for i := 0; i < rounds3; i++ {
+		name := fmt.Sprintf("both_%d_%d%s", c.Seed, i, strings.Repeat("z", []int{0, 10, 70, 200}[i%4]))
+		shape := shapes[i%len(shapes)]
+		src := fmt.Sprintf(shape, name, name)
+		if strings.Count(shape, "%s") == 1 {
+			src = fmt.Sprintf(shape, name)
+		}
+		start := make(chan struct{})
+		var wg3 sync.WaitGroup
+		outs := make([]string, k)
+		for g := 0; g < k; g++ {
+			wg3.Add(1)
+			go func(g int) {
+				defer wg3.Done()
+				<-start
+				outs[g] = evalConcurrently(base, src)
+			}(g)
+		}
+		close(start)
+		wg3.Wait()
+		for g := 0; g < k; g++ {
+			rec := Rec{Impl: outs[g], Src: src, NT: g == 0, Tags: []string{"shared-program", fmt.Sprintf("shape-%d", i%len(shapes))}}
+			if strings.HasPrefix(outs[g], "panic") {
+				rec.Oracle = "panic during concurrent evaluation: " + outs[g]
+			} else if outs[g] != outs[0] {
+				rec.Oracle = fmt.Sprintf("the same program gives %s in one evaluation and %s in another running at the same time", outs[0], outs[g])
+			}
+			results[g] = append(results[g], rec)
+		}
+	}
 	for _, rs := range results {
 		for _, r := range rs {
 			c.Em.Emit(r)
